@@ -727,11 +727,12 @@ def v_assign(run):
     run_skeleton(build, check)
 
 
-@harness(['C02', 'C03', 'C01', 'C13'], 'supp.nast.extract_visitor.visit_AnnAssign')
+@harness(['C02', 'C03', 'C01', 'C13', 'C10'], 'supp.nast.extract_visitor.visit_AnnAssign')
 def v_annassign(run):
-    """x: T = e  binds x after e;  x: T  binds nothing; annotation and value start from V"""
-    for with_value in (True, False):
-        def build(with_value=with_value):
+    """x: T = e  and  (x): T = e  bind x after e;  x: T  and  (x): T  bind nothing; annotation and value start from V
+    (the parenthesised forms, `simple=0`, since round 20)"""
+    for with_value, simple in ((True, 1), (False, 1), (True, 0), (False, 0)):
+        def build(with_value=with_value, simple=simple):
             patch_expr_end()
             sk = Skeleton()
             a = sk.child('expr', 'annotation')
@@ -744,13 +745,13 @@ def v_annassign(run):
             else:
                 sk.facts += [le(a.end.t, nxt.t)]
             x = name_node('x', px)
-            sk.node = kw.put(ast.AnnAssign(target=x, annotation=a.node(), value=e.node() if e else None, simple=1))
+            sk.node = kw.put(ast.AnnAssign(target=x, annotation=a.node(), value=e.node() if e else None, simple=simple))
             sk.node.end_lineno, sk.node.end_col_offset = SInt(nxt.l), SInt(nxt.c)
             sk.a, sk.e, sk.x, sk.nxt = a, e, x, nxt
             return sk
 
-        def check(sk, g, v, path, with_value=with_value):
-            core.RUN.case = 'with-value' if with_value else 'annotation-only'
+        def check(sk, g, v, path, with_value=with_value, simple=simple):
+            core.RUN.case = ('with-value' if with_value else 'annotation-only') + ('' if simple else '-parenthesised-target')
             fs = all_facts(sk)
             check_entries(sk, g, path, [(sk.a, ID)] + ([(sk.e, ID)] if sk.e else []), fs)
             bs = binding_for(g, None, sk.x)
@@ -765,6 +766,48 @@ def v_annassign(run):
             prove_eq('after-statement', g.view_at(v.flow, sk.nxt.t), tr(g.V0), 'table right after the statement', path, fs)
             check_exit(sk, g, v, path, tr, fs)
         run_skeleton(build, check)
+    core.RUN.case = None
+
+
+@harness(['C01', 'C03', 'C13'], 'supp.nast.extract_visitor.visit_AnnAssign')
+def v_annassign_target_exprs(run):
+    """o[k]: T = e,  o[k]: T,  o.f: T = e,  o.f: T   (round 20): CPython evaluates the sub-expressions of an attribute / subscript
+    target whether or not there is a value, so each of them is analysed once, starting from V; the statement binds no name"""
+    for kind in ('subscript', 'attribute'):
+        for with_value in (True, False):
+            def build(kind=kind, with_value=with_value):
+                patch_expr_end()
+                sk = Skeleton()
+                o = sk.child('expr', 'target_object')
+                k = sk.child('expr', 'target_key') if kind == 'subscript' else None
+                a = sk.child('expr', 'annotation')
+                e = sk.child('expr', 'value') if with_value else None
+                kw, nxt = Pos('annassign'), Pos('next-statement')
+                sk.facts += [le(kw.t, o.start.t)]
+                last = o
+                for c in (k, a, e):
+                    if c is not None:
+                        sk.facts += [lt(last.end.t, c.start.t)]
+                        last = c
+                sk.facts += [le(last.end.t, nxt.t)]
+                if kind == 'subscript':
+                    t = kw.put(ast.Subscript(value=o.node(), slice=k.node(), ctx=ast.Store()))
+                else:
+                    t = kw.put(ast.Attribute(value=o.node(), attr='f', ctx=ast.Store()))
+                sk.node = kw.put(ast.AnnAssign(target=t, annotation=a.node(), value=e.node() if e else None, simple=0))
+                sk.node.end_lineno, sk.node.end_col_offset = SInt(nxt.l), SInt(nxt.c)
+                sk.kids, sk.nxt = [c for c in (o, k, a, e) if c is not None], nxt
+                return sk
+
+            def check(sk, g, v, path, kind=kind, with_value=with_value):
+                core.RUN.case = '%s-target-%s' % (kind, 'with-value' if with_value else 'annotation-only')
+                fs = all_facts(sk)
+                check_entries(sk, g, path, [(c, ID) for c in sk.kids], fs)
+                nb = sum(len(Fl._names) for Fl in g.top_scope._all_flows)
+                prove('attribute-or-subscript-target-binds-no-name[C03]', nb == 0, clause='`o[k]: T = e` / `o.f: T` bind no name', path=path)
+                prove_eq('after-statement', g.view_at(v.flow, sk.nxt.t), g.V0, 'table right after the statement', path, fs)
+                check_exit(sk, g, v, path, ID, fs)
+            run_skeleton(build, check)
     core.RUN.case = None
 
 
